@@ -33,6 +33,8 @@ def facts : Facts :=
     defaultDstIdx := (.add .base .i),
     nestedReadIdx := (.add .base .i),
     wrapFrameIsDefTypes := true,
+    wrapFramePerCall := true,
+    getFuncFramePerCall := true,
     wrapArgBase := .base,
     wrapRcvrShift := 1,
     wrapResLo := 0,
@@ -75,5 +77,17 @@ def sourceHashes : List (String × String) :=
    ("isRegularCall", "259f2c721da371cc"),
    ("variadicPos", "d7663b726c26e3e4"),
    ("childPos", "7ad4b844f77f7498")]
+
+/-- Further reviewed versions of transcribed functions. `callBin` / `call` with `copyDeferArg(…)` around the arguments kept
+    for a deferred call (repair of the defer-argument aliasing, C06 F06-1): the change is confined to the deferStmt arm,
+    which the model does not transcribe (only Call-versus-CallSlice of runCfg's deferred loop is a fact). -/
+def alsoReviewed : List (String × String) :=
+  [("callBin", "fad6515f69157102"),
+   ("call", "6d0b111cecb0ee9c")]
+
+/-- the fingerprints read from the source are, name by name and in order, reviewed ones -/
+def hashesReviewed (gen : List (String × String)) : Bool :=
+  gen.map Prod.fst == sourceHashes.map Prod.fst &&
+  gen.all fun p => sourceHashes.contains p || alsoReviewed.contains p
 
 end YaegiVerif.Expected.C07
